@@ -3608,8 +3608,10 @@ class LazyStackedTensorDict(TensorDictBase):
                 start = 0
                 for s in split_size:
                     if s == 0:
+                        # a stack without members is described by the batch size of its
+                        # (absent) members: the constructor inserts the stack dim (size 0)
                         batch_size = list(self._batch_size)
-                        batch_size[self.stack_dim] = 0
+                        del batch_size[self.stack_dim]
                         yield LazyStackedTensorDict(
                             batch_size=batch_size,
                             device=self.device,
